@@ -385,16 +385,18 @@ ANCHORS: dict[str, dict[str, set | None]] = {
     "C01": {"hugr.build.dfg": ALL, "hugr.build.cfg": ALL, "hugr.build.cond_loop": ALL, "hugr.build.function": ALL, "hugr.build.tracked_dfg": ALL,
             "hugr.hugr.base": {"_constrain_offset", "_order_port_offset", "add_order_link"}},
     "C02": {"hugr.hugr.base": SER, "hugr._serialization.serial_hugr": ALL, "hugr._serialization.ops": ALL, "hugr._serialization.tys": ALL,
-            "hugr.ops": {"_to_serial"}, "hugr.tys": {"_to_serial", "_to_serial_root", "_to_opaque"}, "hugr.val": {"_to_serial", "_to_serial_root"}},
+            "hugr.ops": {"_to_serial"}, "hugr.tys": {"_to_serial", "_to_serial_root", "_to_opaque"}, "hugr.val": {"_to_serial", "_to_serial_root"},
+            "hugr.utils": {"ser_it", "deser_it"}},
     "C03": {"hugr.hugr.base": {"_to_serial", "_constrain_offset", "_order_port_offset", "_hierarchy_order", "to_json", "_serialize_node", "_serialize_link"},
             "hugr.package": {"_to_serial", "to_json"}, "hugr.envelope": {"make_envelope", "make_envelope_str"}, "hugr.ext": {"_to_serial", "to_json"},
             "hugr.ops": {"_to_serial"}},
     "C04": {"hugr.hugr.base": "STORE", "hugr.utils": ALL},
     "C05": {"hugr.hugr.base": SER, "hugr._serialization.ops": ALL, "hugr._serialization.tys": ALL, "hugr.ops": {"_to_serial", "to_custom_op"},
-            "hugr.tys": {"_to_serial", "_to_serial_root", "_to_opaque", "__eq__", "__init__"}, "hugr.val": {"_to_serial", "_to_serial_root", "__eq__", "__init__"}},
+            "hugr.tys": {"_to_serial", "_to_serial_root", "_to_opaque", "__eq__", "__init__"}, "hugr.val": {"_to_serial", "_to_serial_root", "__eq__", "__init__"},
+            "hugr.utils": {"ser_it", "deser_it"}},
     "C06": {"hugr.ops": {"outer_signature", "inner_signature", "num_out", "port_kind", "port_type", "nth_inputs", "nth_outputs", "_function_port_offset", "_inputs",
                          "cached_signature", "_sig_port_type", "signature"}, "hugr.tys": {"flip"}},
-    "C07": {"hugr.tys": {"type_bound", "_to_opaque"}, "hugr._serialization.tys": {"join"}, "hugr.std.collections.array": ALL, "hugr.std.collections.list": ALL,
+    "C07": {"hugr.tys": {"type_bound", "_to_opaque", "__init__"}, "hugr._serialization.tys": {"join"}, "hugr.std.collections.array": ALL, "hugr.std.collections.list": ALL,
             "hugr.std.collections.static_array": ALL},
     "C08": {"hugr.hugr.base": {"insert_hugr"}, "hugr.build.dfg": {"_insert_nested_impl", "insert_nested", "insert_cfg", "insert_conditional", "insert_tail_loop"}},
     "C09": {"hugr.envelope": ALL, "hugr.package": {"from_bytes", "from_str", "to_bytes", "to_str", "_to_serial"}},
